@@ -1,6 +1,7 @@
 package routing
 
 import (
+	"errors"
 	"fmt"
 	"hash/crc32"
 	"testing"
@@ -125,4 +126,114 @@ func TestVerifC21Exhaustive(t *testing.T) {
 		k.Sample(func() any { return fmt.Sprintf("key=%q × all counts 1..65535", key) })
 		col.Commit(k)
 	}
+}
+
+// TestVerifC21RoutingBatches: in a batch lookup the hash slot, Slot and outcome
+// of every key depend on that key alone — not on its neighbours in the batch,
+// not on whether an earlier key failed. Small counts and a small key pool make
+// adjacent repeats, repeats of failing keys and mixed outcomes frequent; some
+// hash slots are unassigned and some Slots have no leader.
+func TestVerifC21RoutingBatches(t *testing.T) {
+	kit.Check(t, "C21", func(rt *rapid.T, k *kit.Case) {
+		n := uint16(rapid.IntRange(1, 16).Draw(rt, "count"))
+		table := &Table{Revision: 7, HashSlotCount: n, HashToSlot: make([]uint32, int(n)), SlotLeaders: map[uint32]uint64{}, SlotLeaderTerms: map[uint32]uint64{}, SlotConfigEpochs: map[uint32]uint64{}}
+		for i := range table.HashToSlot {
+			table.HashToSlot[i] = uint32(rapid.IntRange(0, 4).Draw(rt, "slotOfHashSlot")) // 0 = unassigned
+		}
+		for s := uint32(1); s <= 4; s++ {
+			if rapid.IntRange(0, 2).Draw(rt, "hasLeader") > 0 {
+				table.SlotLeaders[s] = uint64(s) + 10
+				table.SlotLeaderTerms[s] = uint64(s) + 100
+			}
+			table.SlotConfigEpochs[s] = uint64(s) + 1000
+		}
+		pool := make([]string, rapid.IntRange(1, 5).Draw(rt, "poolSize"))
+		for i := range pool {
+			pool[i] = verifC21Key().Draw(rt, "poolKey")
+		}
+		keys := make([]string, rapid.IntRange(1, 12).Draw(rt, "batch"))
+		for i := range keys {
+			keys[i] = pool[rapid.IntRange(0, len(pool)-1).Draw(rt, "pick")]
+		}
+		type expect struct {
+			hashSlot uint16
+			slot     uint32
+			leader   uint64
+			err      error
+		}
+		want := make([]expect, len(keys))
+		anyFail, anyOK, repeatAfterFail := false, false, false
+		for i, key := range keys {
+			e := expect{hashSlot: uint16(crc32.ChecksumIEEE([]byte(key)) % uint32(n))}
+			e.slot = table.HashToSlot[int(e.hashSlot)]
+			switch {
+			case e.slot == 0:
+				e.err = ErrRouteNotReady
+			case table.SlotLeaders[e.slot] == 0:
+				e.err = ErrNoSlotLeader
+			default:
+				e.leader = table.SlotLeaders[e.slot]
+			}
+			want[i] = e
+			if e.err != nil {
+				anyFail = true
+				if i > 0 && keys[i-1] == key {
+					repeatAfterFail = true
+				}
+			} else {
+				anyOK = true
+			}
+		}
+		r := NewRouter()
+		r.current.Store(table)
+		pa, err := r.RouteAuthoritiesPartial(keys)
+		if err != nil || len(pa) != len(keys) {
+			rt.Fatalf("RouteAuthoritiesPartial: err=%v results=%d keys=%d", err, len(pa), len(keys))
+		}
+		for i, got := range pa {
+			e := want[i]
+			if e.err != nil {
+				if got.Err == nil || !errors.Is(got.Err, e.err) {
+					rt.Fatalf("RouteAuthoritiesPartial key %d %q (hash slot %d of %d, Slot %d): got authority %+v err %v, want %v — the outcome of a key depends on its batch neighbours (keys %q)", i, trunc(keys[i]), e.hashSlot, n, e.slot, got.Authority, got.Err, e.err, keys)
+				}
+				continue
+			}
+			if got.Err != nil || got.Authority.HashSlot != e.hashSlot || got.Authority.SlotID != e.slot || got.Authority.LeaderNodeID != e.leader ||
+				got.Authority.LeaderTerm != uint64(e.slot)+100 || got.Authority.ConfigEpoch != uint64(e.slot)+1000 || got.Authority.RouteRevision != 7 {
+				rt.Fatalf("RouteAuthoritiesPartial key %d %q: got %+v err %v, want hash slot %d Slot %d leader %d", i, trunc(keys[i]), got.Authority, got.Err, e.hashSlot, e.slot, e.leader)
+			}
+		}
+		auth, err := r.RouteAuthorities(keys)
+		if anyFail {
+			if err == nil {
+				rt.Fatalf("RouteAuthorities succeeded although a key of the batch cannot be routed: %+v", auth)
+			}
+		} else {
+			if err != nil || len(auth) != len(keys) {
+				rt.Fatalf("RouteAuthorities: %v", err)
+			}
+			for i, got := range auth {
+				if got.HashSlot != want[i].hashSlot || got.SlotID != want[i].slot || got.LeaderNodeID != want[i].leader {
+					rt.Fatalf("RouteAuthorities key %d %q: got %+v want hash slot %d Slot %d leader %d", i, trunc(keys[i]), got, want[i].hashSlot, want[i].slot, want[i].leader)
+				}
+			}
+		}
+		pk, err := r.RouteKeysPartial(keys)
+		if err != nil || len(pk) != len(keys) {
+			rt.Fatalf("RouteKeysPartial: err=%v results=%d", err, len(pk))
+		}
+		for i, got := range pk {
+			if got.Err == nil && (got.Route.HashSlot != want[i].hashSlot || got.Route.SlotID != want[i].slot) {
+				rt.Fatalf("RouteKeysPartial key %d %q: got hash slot %d Slot %d, want %d / %d", i, trunc(keys[i]), got.Route.HashSlot, got.Route.SlotID, want[i].hashSlot, want[i].slot)
+			}
+			if got.Err == nil && want[i].slot == 0 {
+				rt.Fatalf("RouteKeysPartial key %d %q routed although hash slot %d is unassigned", i, trunc(keys[i]), want[i].hashSlot)
+			}
+		}
+		k.Key(n, fmt.Sprint(table.HashToSlot), fmt.Sprint(table.SlotLeaders), keys)
+		k.SetNonTrivial(anyFail && anyOK)
+		k.LabelIf(repeatAfterFail, "a failing key repeated right after itself")
+		k.LabelIf(anyFail && anyOK, "batch with routable and unroutable keys")
+		k.Sample(func() any { return fmt.Sprintf("count=%d batch=%d fail=%v ok=%v", n, len(keys), anyFail, anyOK) })
+	})
 }
